@@ -306,6 +306,151 @@ def check_invalid_cell(case):
                     "set_params, fit or predict)", detector=det_name, params=params, why=case["why"], route=case["route"])
 
 
+# ------------------------------------------------------------------ numpy-scalar hyper-parameters
+
+NUMPY_CONFIGS = [
+    ("PELT", {"penalty_scale": 1.0, "min_segment_length": 1}),
+    ("PELT", {"penalty_scale": 0.0, "min_segment_length": 3}),
+    ("MovingWindow", {"bandwidth": 1, "threshold_scale": 1.0}),
+    ("MovingWindow", {"bandwidth": 8, "threshold_scale": 0.5, "level": 0.05, "min_detection_interval": 3}),
+    ("MovingWindow", {"bandwidth": 3, "threshold_scale": None, "level": 0.1}),
+    ("SeededBinarySegmentation", {"threshold_scale": 1.0, "min_segment_length": 1, "max_interval_length": 2, "growth_factor": 2.0}),
+    ("SeededBinarySegmentation", {"threshold_scale": 0.5, "level": 0.01, "min_segment_length": 3, "max_interval_length": 20, "growth_factor": 1.5}),
+    ("CircularBinarySegmentation", {"threshold_scale": 0.5, "min_segment_length": 2, "max_interval_length": 12, "growth_factor": 1.5}),
+    ("CAPA", {"collective_penalty_scale": 1.0, "point_penalty_scale": 1.0, "min_segment_length": 2, "max_segment_length": 8}),
+    ("MVCAPA", {"collective_penalty_scale": 0.5, "point_penalty_scale": 2.0, "min_segment_length": 3, "max_segment_length": 3}),
+    ("StatThresholdAnomaliser", {"change_detector": {"cls": "PELT", "min_segment_length": 2}, "stat_lower": -1.0, "stat_upper": 1.0}),
+]
+NUMPY_TYPES = ["int64", "int32", "float64", "float32", "int_", "uint8"]
+
+
+def numpy_scalar_cells(tier):
+    for i, (det, params) in enumerate(NUMPY_CONFIGS):
+        for t in NUMPY_TYPES:
+            for kind in ("step", "generic"):
+                yield {"detector": det, "params": params, "numpy_type": t, "data": kind}
+
+
+def _as_numpy_scalars(params, t):
+    """Integral values -> the integer type (or any type if it is a float type); other floats -> float types only."""
+    out = {}
+    for k, v in params.items():
+        if isinstance(v, bool) or v is None or isinstance(v, dict):
+            out[k] = K.build(v) if isinstance(v, dict) else v
+        elif isinstance(v, int):
+            out[k] = getattr(np, t)(v) if not t.startswith("float") else (getattr(np, t)(v) if k.endswith(("scale", "level", "lower", "upper", "factor")) else np.int64(v))
+        else:
+            out[k] = getattr(np, t)(v) if t.startswith("float") else (np.float64(v) if not float(v).is_integer() else getattr(np, t)(int(v)) if k.endswith(("scale", "lower", "upper")) and v >= 0 else np.float64(v))
+    return out
+
+
+def check_numpy_scalars(case):
+    """Hyper-parameters given as numpy scalars (as produced by np.arange, rng.integers, .astype) are inside the
+    documented domain exactly like the equal Python numbers: they must run and give the same detections."""
+    det_name, params = case["detector"], case["params"]
+    p = 1 if det_name == "StatThresholdAnomaliser" else 2
+    X = make_data(case["data"], 40, p, False)
+    reg = K.registry()
+    with sut(f"{det_name} with Python-number hyper-parameters"):
+        ref_det = K.build(K.detector_spec(det_name, params)).fit(X)
+        want = ref_det.predict(X)
+    np_params = _as_numpy_scalars(params, case["numpy_type"])
+    with sut(f"{det_name} with numpy-scalar hyper-parameters ({case['numpy_type']})"):
+        det = reg[det_name](**np_params).fit(X)
+        got = det.predict(X)
+        det.transform(X)
+    from checks.c11 import sparse_signature
+    a, b = sparse_signature(want), sparse_signature(got)
+    if case["numpy_type"] in ("float32", "uint8"):
+        # single-precision scales are slightly different numbers, and 8-bit integers overflow in products such as
+        # n * max_interval_length (NumPy's own arithmetic, not a hyper-parameter check): only completion and
+        # well-formed output are required, as the property states
+        K.check_wellformed(det_name, params, len(X), p, got)
+    elif a != b:
+        raise Violation("numpy-scalar hyper-parameters give other detections than the equal Python numbers",
+                        detector=det_name, params=params, numpy_type=case["numpy_type"], python=a, numpy=b)
+    return {"nontrivial": True, "classes": [f"type={case['numpy_type']}", f"det={det_name}"]}
+
+
+# ------------------------------------------------------------------ forms of missing values
+
+NA_FORMS = ["float64_nan", "float32_nan", "Int64_NA", "Float64_NA", "object_None", "boolean_NA", "ndarray_nan", "series_nan"]
+
+
+def missing_cells(tier):
+    dets = [("PELT", {}), ("MovingWindow", {"bandwidth": 3}), ("SeededBinarySegmentation", {}),
+            ("CAPA", {}), ("MVCAPA", {}), ("CircularBinarySegmentation", {"max_interval_length": 20}),
+            ("StatThresholdAnomaliser", {"change_detector": {"cls": "PELT"}})]
+    for det, params in dets:
+        for form in NA_FORMS:
+            for pos in ("first", "middle", "last"):
+                for p in (1, 2):
+                    for where in ("fit", "predict"):
+                        if (det == "StatThresholdAnomaliser" or form == "series_nan") and p == 2:
+                            continue
+                        yield {"detector": det, "params": params, "form": form, "pos": pos, "p": p, "where": where}
+
+
+def build_missing(form, n, p, pos):
+    import pandas as pd
+
+    i = {"first": 0, "middle": n // 2, "last": n - 1}[pos]
+    base = np.array([[float((r * 3 + c) % 7) for c in range(p)] for r in range(n)])
+    if form in ("float64_nan", "float32_nan", "ndarray_nan", "series_nan"):
+        A = base.astype(np.float32 if form == "float32_nan" else np.float64)
+        A[i, -1] = np.nan
+        if form == "ndarray_nan":
+            return A
+        if form == "series_nan":
+            return pd.Series(A[:, 0])
+        return pd.DataFrame(A)
+    cols = {}
+    for c in range(p):
+        col = list(base[:, c])
+        if form == "Int64_NA":
+            vals = [int(v) for v in col]
+            if c == p - 1:
+                vals[i] = pd.NA
+            cols[f"c{c}"] = pd.array(vals, dtype="Int64")
+        elif form == "Float64_NA":
+            vals = list(col)
+            if c == p - 1:
+                vals[i] = pd.NA
+            cols[f"c{c}"] = pd.array(vals, dtype="Float64")
+        elif form == "boolean_NA":
+            vals = [bool(int(v) % 2) for v in col]
+            if c == p - 1:
+                vals[i] = pd.NA
+            cols[f"c{c}"] = pd.array(vals, dtype="boolean")
+        else:
+            vals = list(col)
+            if c == p - 1:
+                vals[i] = None
+            cols[f"c{c}"] = np.array(vals, dtype=object)
+    return pd.DataFrame(cols)
+
+
+def check_missing(case):
+    det_name = case["detector"]
+    n, p = 24, case["p"]
+    bad = build_missing(case["form"], n, p, case["pos"])
+    clean = make_data("generic", n, p, False)
+    stage = "fit"
+    try:
+        with sut(f"{det_name} on data with a missing value ({case['form']})", allowed=(ValueError,)):
+            det = K.build(K.detector_spec(det_name, case["params"]))
+            if case["where"] == "fit":
+                det.fit(bad)
+            else:
+                det.fit(clean)
+                stage = "predict"
+                det.predict(bad)
+    except ValueError:
+        return {"nontrivial": True, "classes": [f"form={case['form']}", f"rejected_at_{stage}"]}
+    raise Violation("data containing a missing value was accepted (ValueError expected)", detector=det_name,
+                    form=case["form"], position=case["pos"], p=p, where=case["where"])
+
+
 FACETS = [
     Facet(name="valid_grid", kind="enumerate", enumerate=valid_enumerate, check=check_valid_cell,
           timeout_is_violation=True, time_limit=12.0, exhaustive=True, exhaustive_tiers=("thorough",),
@@ -322,4 +467,16 @@ FACETS = [
                 "stat_lower > stat_upper) through the constructor and through set_params, followed by fit/predict; "
                 "ValueError must be raised at some stage; every cell is non-trivial"),
           shards_quick=4, shards_thorough=4),
+    Facet(name="numpy_scalar_hyperparameters", kind="enumerate", enumerate=numpy_scalar_cells, check=check_numpy_scalars,
+          exhaustive=True, timeout_is_violation=True, time_limit=12.0,
+          rule=("11 valid configurations (boundary values included) of the seven detectors with every numeric hyper-parameter "
+                "given as a numpy scalar (int64, int32, float64, float32, int_, uint8) x two data kinds: must run and give the "
+                "same detections as the equal Python numbers; every cell is non-trivial"),
+          shards_quick=4, shards_thorough=4),
+    Facet(name="missing_value_forms", kind="enumerate", enumerate=missing_cells, check=check_missing, exhaustive=True,
+          timeout_is_violation=True, time_limit=12.0,
+          rule=("seven detectors x eight forms of a missing value (NaN in float64 / float32 frames, arrays and Series, pd.NA in "
+                "nullable Int64 / Float64 / boolean columns, None in an object column) x position first/middle/last x p in {1,2} x "
+                "in the fit data or in the predict data: ValueError expected; every cell is non-trivial"),
+          shards_quick=8, shards_thorough=8),
 ]
